@@ -5,3 +5,7 @@ NOTES = ("All checks: ./check <ID> [--tier quick|thorough]; seeds derive from VE
 
 NOT_APPLICABLE = {}
 
+
+# Properties whose check has been reviewed by the coordinator and is registered in MANIFEST.json.
+# (A lib/props/<ID>.py file may exist earlier than that while its harness is still being built.)
+CLAIMED = ["C06", "C12"]
